@@ -34,6 +34,8 @@
 //! 13 window-aggregate-of-literal    14 sum-of-constant-derived-column    15 union-empty-first-branch-names (outcome-keyed)
 //! 16 nullability-mismatch:bool-test, :case-then-in-when and :correlated-scalar-subquery (outcome-keyed Internal errors)
 //! 17 window-partition-by-not-ordered (outcome-keyed Execution error)   18 nested-offset-without-limit (physical LimitPushdown)
+//! 20 filter-above-join-duplicate-column-names (same root cause as 9)   21 in-list-conjunction-folded-to-false (= C04 finding)
+//! 19 decorrelate-duplicate-inner-column-names (correlation predicates on equally named inner columns collapse)
 //! Not pinned as findings: decorrelation rules failing with `Schema error: No field named …` on unsupported
 //! correlated shapes are treated as the engine's (poorly worded) rejection → discards labelled `decorrelation-failed`.
 //!
@@ -212,6 +214,146 @@ pub fn window_of_literal(q: &Query) -> bool {
         if let Expr::Win(w) = e {
             if matches!(w.args.first(), Some(Expr::Lit(_)) | Some(Expr::Null(_))) && !matches!(w.f, refsql::WinFunc::Ntile) {
                 found = true
+            }
+        }
+    });
+    found
+}
+
+/// WHERE over a join with a conjunct that holds a scalar subquery and equally named columns of two relations
+/// (known finding `filter-above-join-duplicate-column-names`)
+pub fn filter_above_join_duplicate_names(q: &Query) -> bool {
+    fn conjuncts<'a>(e: &'a Expr, out: &mut Vec<&'a Expr>) {
+        match e {
+            Expr::Bin(refsql::BinOp::And, l, r) => {
+                conjuncts(l, out);
+                conjuncts(r, out)
+            }
+            Expr::Between { e, lo, hi, negated: false } => {
+                // BETWEEN is split into two comparisons sharing `e`
+                out.push(e);
+                out.push(lo);
+                out.push(hi);
+                let _ = (lo, hi);
+            }
+            o => out.push(o),
+        }
+    }
+    fn set(e: &SetExpr, found: &mut bool) {
+        match e {
+            SetExpr::Select(s) => {
+                if let (Some(TableRef::Join { .. }), Some(w)) = (&s.from, &s.where_) {
+                    let mut has_scalar = false;
+                    let mut cols: Vec<(String, String)> = vec![];
+                    refsql::eval::walk_expr_shallow(w, &mut |x| match x {
+                        Expr::Scalar(_) => has_scalar = true,
+                        Expr::Col { rel: Some(r), name } => cols.push((r.clone(), name.clone())),
+                        _ => {}
+                    });
+                    let mut cs = vec![];
+                    conjuncts(w, &mut cs);
+                    let dup = cols.iter().enumerate().any(|(i, (r1, n1))| cols.iter().skip(i + 1).any(|(r2, n2)| n1 == n2 && r1 != r2));
+                    if has_scalar && dup {
+                        *found = true;
+                    }
+                }
+            }
+            SetExpr::SetOp { left, right, .. } => {
+                set(left, found);
+                set(right, found)
+            }
+            SetExpr::Query(_) => {}
+        }
+    }
+    let mut found = false;
+    refsql::visit_queries(q, &mut |qq| set(&qq.body, &mut found));
+    found
+}
+
+/// `x IN (..) AND x IN (..)` (also with OR) on the same x (known finding `in-list-conjunction-folded-to-false`)
+pub fn in_list_conjunction(q: &Query) -> bool {
+    let mut found = false;
+    refsql::visit_exprs(q, &mut |e| {
+        if let Expr::Bin(refsql::BinOp::And | refsql::BinOp::Or, _, _) = e {
+            // flatten the AND/OR chain and look for two IN lists over the same expression
+            let mut lists: Vec<&Expr> = vec![];
+            fn flat<'a>(e: &'a Expr, out: &mut Vec<&'a Expr>) {
+                match e {
+                    Expr::Bin(refsql::BinOp::And | refsql::BinOp::Or, l, r) => {
+                        flat(l, out);
+                        flat(r, out)
+                    }
+                    Expr::InList { e, .. } => out.push(e),
+                    _ => {}
+                }
+            }
+            flat(e, &mut lists);
+            for (i, a) in lists.iter().enumerate() {
+                if lists.iter().skip(i + 1).any(|b| a == b) {
+                    found = true;
+                }
+            }
+        }
+    });
+    found
+}
+
+pub fn has_searched_case(q: &Query) -> bool {
+    let mut found = false;
+    refsql::visit_exprs(q, &mut |e| {
+        if matches!(e, Expr::Case { operand: None, .. }) {
+            found = true
+        }
+    });
+    found
+}
+
+/// A correlated subquery whose correlation predicates (comparisons with an outer column) mention equally named
+/// columns of two different inner relations (known finding `decorrelate-duplicate-inner-column-names`).
+pub fn decorrelate_duplicate_inner_names(q: &Query) -> bool {
+    let mut found = false;
+    refsql::visit_exprs(q, &mut |e| {
+        let sq = match e {
+            Expr::Scalar(sq) => sq,
+            Expr::Exists { q, .. } | Expr::InSubquery { q, .. } | Expr::Quantified { q, .. } => q,
+            _ => return,
+        };
+        let defs = refsql::r#gen::defined_aliases(sq);
+        // inner columns compared with an outer column
+        let mut inner: Vec<(String, String)> = vec![];
+        refsql::visit_exprs(sq, &mut |x| {
+            if let Expr::Bin(op, l, r) = x {
+                if op.is_cmp() {
+                    let side = |e: &Expr| -> (Vec<(String, String)>, bool) {
+                        let mut ins = vec![];
+                        let mut outer = false;
+                        refsql::eval::walk_expr_shallow(e, &mut |y| {
+                            if let Expr::Col { rel: Some(r), name } = y {
+                                if defs.contains(r) {
+                                    ins.push((r.clone(), name.clone()))
+                                } else {
+                                    outer = true
+                                }
+                            }
+                        });
+                        (ins, outer)
+                    };
+                    let (li, lo) = side(l);
+                    let (ri, ro) = side(r);
+                    if lo {
+                        inner.extend(ri);
+                    }
+                    if ro {
+                        inner.extend(li);
+                    }
+                }
+            }
+        });
+        for (i, (r1, n1)) in inner.iter().enumerate() {
+            for (r2, n2) in inner.iter().skip(i + 1) {
+                if n1 == n2 && r1 != r2 {
+                    found = true;
+                }
             }
         }
     });
@@ -579,6 +721,7 @@ pub fn in_subquery_outside_conjunct(q: &Query) -> bool {
 
 /// A searched CASE has a THEN expression (not a literal) that also occurs inside its WHEN predicate
 /// (known finding `case-then-occurs-in-when`: logical and physical nullability analyses disagree → Internal error).
+#[allow(dead_code)]
 pub fn case_then_in_when(q: &Query) -> bool {
     let mut found = false;
     refsql::visit_exprs(q, &mut |e| {
@@ -618,7 +761,7 @@ pub fn not_in_constant_lhs(q: &Query) -> bool {
     fn const_null(e: &Expr) -> bool {
         match e {
             Expr::Null(_) => true,
-            Expr::NullIf(a, b) => matches!((&**a, &**b), (Expr::Lit(x), Expr::Lit(y)) if x == y),
+            Expr::NullIf(a, b) => const_null(a) || matches!((&**a, &**b), (Expr::Lit(x), Expr::Lit(y)) if x == y),
             Expr::Bin(refsql::BinOp::Add | refsql::BinOp::Sub | refsql::BinOp::Mul | refsql::BinOp::Div | refsql::BinOp::Mod | refsql::BinOp::Concat, l, r) => const_null(l) || const_null(r),
             Expr::Neg(x) | Expr::Cast(x, _) => const_null(x),
             _ => false,
@@ -631,7 +774,14 @@ pub fn not_in_constant_lhs(q: &Query) -> bool {
                 has_col = true
             }
         });
-        if !has_col || const_null(e) {
+        // coalesce / CASE / nullif over literals are folded away by the simplifier (`coalesce(-0.5, f)` → -0.5)
+        let mut foldable = false;
+        refsql::eval::walk_expr_shallow(e, &mut |y| {
+            if matches!(y, Expr::Coalesce(_) | Expr::Case { .. } | Expr::NullIf(..) | Expr::Null(_)) {
+                foldable = true
+            }
+        });
+        if !has_col || const_null(e) || foldable {
             found = true;
         }
     });
@@ -834,6 +984,15 @@ pub fn shape_signature(q: &Query) -> Option<String> {
     if pred_subquery_correlated_global_agg(q) {
         return Some("pred-subquery-correlated-global-aggregate".into());
     }
+    if in_list_conjunction(q) {
+        return Some("in-list-conjunction-folded-to-false".into());
+    }
+    if filter_above_join_duplicate_names(q) {
+        return Some("filter-above-join-duplicate-column-names".into());
+    }
+    if decorrelate_duplicate_inner_names(q) {
+        return Some("decorrelate-duplicate-inner-column-names".into());
+    }
     if nested_offset_without_limit(q) {
         return Some("nested-offset-without-limit".into());
     }
@@ -877,7 +1036,7 @@ impl Property for C01 {
             return Some(sig);
         }
         // outcome-keyed signatures: construct present AND the engine answers with exactly that internal error
-        let (bt, cw, nu, wi, cs) = (has_bool_test(q), case_then_in_when(q), has_nested_union(q), has_window(q), has_correlated_scalar(q));
+        let (bt, cw, nu, wi, cs) = (has_bool_test(q), has_searched_case(q), has_nested_union(q), has_window(q), has_correlated_scalar(q));
         if bt || cw || nu || wi || cs {
             let out = engine_run(case, &refsql::to_sql(q));
             if nullability_mismatch(&out) {
